@@ -216,7 +216,10 @@ func isEffect(kind string) bool {
 func (h *histRun) recoverAndCheck(tag string, opIdx int, label string, want map[string][]byte, mustRun []string, what string) *simcheck.Violation {
 	pc := h.pc
 	pc.CrashAt, pc.IOErrAt, pc.TornFrac = 0, nil, 0
-	for _, idx := range []bool{false, true} {
+	// (the index-based load comes first: a full load rewrites index.json, and would hide an
+	// index the interrupted process left torn; an index-based load that falls back to a full
+	// load, or succeeds from the index alone, leaves the records for the full load to see)
+	for _, idx := range []bool{true, false} {
 		res := h.build(opIdx, &opSpec{Op: "load-only", Index: idx}, pc, nil)
 		if v := procFailure(res); v != nil {
 			if v.Class != simcheck.EngineError {
